@@ -467,6 +467,38 @@ fn c08(tier: &str) -> PropDef {
             }),
         },
         Family {
+            name: "replica-full-page",
+            count: if quick { 3 } else { 40 },
+            make: Box::new(|seed, idx| {
+                // a replica that ends up holding whole 32768-block pages, the last gap closing
+                // in front of blocks that reach the end of the highest page
+                let mut r = Rng::stream(seed, "C08", idx, "full-page");
+                let pages = if idx % 3 == 2 { 2u64 } else { 1 };
+                let len = pages * 32768;
+                let gap = match idx % 3 {
+                    0 => len - 2,
+                    1 => r.below(len - 1),
+                    _ => 32768 + r.below(32767),
+                };
+                let steps = vec![
+                    Step::Fill { n: 0, count: len as u32, size: 1, tag0: 0 },
+                    Step::Sync { to: 1, req: crate::world::Req { block: Some(len - 1), upgrade: Some(u64::MAX >> 8), ..Default::default() } },
+                    Step::SyncBlocks { to: 1, from: 0, until: len - 1, skip: Some(gap) },
+                    Step::Info { n: 1 },
+                    Step::Sync { to: 1, req: crate::world::Req { block: Some(gap), ..Default::default() } },
+                    Step::Info { n: 1 },
+                    Step::Reopen { n: 1 },
+                    Step::Info { n: 1 },
+                ];
+                let mut cfg = Cfg::basic(seed ^ idx);
+                cfg.replicas = 1;
+                cfg.scan = ScanMode::None;
+                cfg.subscribers = 0;
+                cfg.no_snapshots = true;
+                world_case(cfg, steps, Fault::None)
+            }),
+        },
+        Family {
             name: "small-writer",
             count: if quick { 15_000 } else { 400_000 },
             make: Box::new(|seed, idx| {
@@ -806,6 +838,47 @@ fn c06(tier: &str) -> PropDef {
             }),
         },
         Family {
+            name: "reader-large",
+            count: if quick { 4 } else { 80 },
+            make: Box::new(|seed, idx| {
+                // cores spanning several 32768-block bitfield pages (page offsets, page-crossing clears)
+                let mut r = Rng::stream(seed, "C06", idx, "reader-large");
+                let count = *r.pick(&[32769u32, 33000, 40000, 65537, 70000]);
+                let mut steps = vec![Step::Fill { n: 0, count, size: 1, tag0: 0 }];
+                if r.chance(1, 2) {
+                    let s = *r.pick(&[32760u64, 32767, 32768, 100]);
+                    steps.push(Step::Clear { n: 0, start: s, end: s + r.range(1, 20) });
+                }
+                steps.push(Step::Append { n: 0, blk: crate::model::Blk { tag: 7, len: 3 } });
+                steps.push(Step::Reopen { n: 0 });
+                let mut cfg = Cfg::basic(seed ^ idx);
+                cfg.judge_layout = true;
+                cfg.scan = ScanMode::None;
+                world_case(cfg, steps, Fault::None)
+            }),
+        },
+        Family {
+            name: "js-encoded-stores-large",
+            count: if quick { 3 } else { 60 },
+            make: Box::new(|seed, idx| {
+                let mut r = Rng::stream(seed, "C06", idx, "jswrite-large");
+                let n = *r.pick(&[32769u32, 33000, 65537]);
+                let blks: Vec<crate::model::Blk> = (0..n).map(|i| crate::model::Blk { tag: i, len: 1 }).collect();
+                let mut spec = crate::jsfmt::JsStoreSpec {
+                    key_seed: idx ^ 0x1a46e,
+                    flushed: vec![crate::jsfmt::JsOp::Append(blks)],
+                    header_writes: r.range(1, 4) as u32,
+                    other_slot: r.below(3) as u8,
+                    ..Default::default()
+                };
+                if r.chance(1, 2) {
+                    spec.flushed.push(crate::jsfmt::JsOp::Clear(32766, 32770));
+                }
+                spec.entries.push(crate::jsfmt::JsOp::Append(vec![crate::model::Blk { tag: 900_000, len: 4 }]));
+                Case { prop: String::new(), family: String::new(), run: 0, body: Body::JsStore(spec) }
+            }),
+        },
+        Family {
             name: "js-encoded-stores",
             count: if quick { 25_000 } else { 600_000 },
             make: Box::new(|seed, idx| {
@@ -851,6 +924,35 @@ fn c15(tier: &str) -> PropDef {
             }),
         },
         Family {
+            name: "starved-waiters",
+            count: if quick { 6_000 } else { 200_000 },
+            make: Box::new(move |seed, idx| {
+                // async-lock hands the lock over in queue order only to waiters that waited more
+                // than 500 us: these runs force that mode so that the gap between two lock
+                // sections of one call can open
+                let mut r = Rng::stream(seed, "C15", idx / 6, "starved");
+                let mut spec = crate::c15::gen_spec(&mut r, idx / 6, false);
+                spec.starve = true;
+                spec.sched = if idx % 2 == 0 {
+                    crate::c15::Sched::Random { seed: seed ^ idx.wrapping_mul(0x51ED) }
+                } else {
+                    crate::c15::Sched::Pct { seed: seed ^ idx.wrapping_mul(0x2F4B), d: 1 + (idx % 3) as u32 }
+                };
+                shared_case(spec)
+            }),
+        },
+        Family {
+            name: "starved-dfs-small",
+            count: if quick { 60 } else { 1500 },
+            make: Box::new(move |seed, idx| {
+                let mut r = Rng::stream(seed, "C15", idx, "starved-dfs");
+                let mut spec = crate::c15::gen_spec(&mut r, idx, true);
+                spec.starve = true;
+                spec.sched = crate::c15::Sched::Dfs { cap: if quick { 60 } else { 600 } };
+                shared_case(spec)
+            }),
+        },
+        Family {
             name: "pct",
             count: if quick { 80_000 } else { 3_000_000 },
             make: Box::new(move |seed, idx| {
@@ -864,7 +966,11 @@ fn c15(tier: &str) -> PropDef {
     PropDef {
         level: "exploration",
         rule: "2-4 tasks x 1-4 calls from {append, append_batch, get, has, info, create_proof (block / upgrade), missing_nodes, clear through the public mutex, verify_and_apply_proof of pre-made honest proofs on a replica} on one SharedCore over a SimDisk that returns Pending once before every storage operation; the poll order chosen by the scheduler is the schedule (depth-first enumeration of all schedules with a cap for 2 tasks x <= 2 calls, seeded random, PCT with 1-3 priority change points). Invoke/return stamps come from the executor's global event sequence number. Oracle: Wing-Gong search for a sequential order that respects real-time precedence and reproduces every result on sequential models (list model for a writer, (length, held) for a replica; a created upgrade proof must carry the signature of the length at its linearisation point, verified with the independent Merkle reference); direct judges: append outcomes cover 0..length exactly once and each block holds the bytes of the append whose outcome implies its index; deadlock, panic and step-budget overrun are violations. distinct = distinct schedule (task id sequence) hash per workload; non-trivial = the schedule preempted a task that was still runnable at least once.",
-        assumptions: vec!["one OS thread: async-lock and Arc are trusted; data races are excluded by &mut + the mutex, the residual risk is lock-scope bugs", "histories are at most 16 operations"],
+        assumptions: vec![
+            "one OS thread: async-lock and Arc are trusted; data races are excluded by &mut + the mutex, the residual risk is lock-scope bugs",
+            "async-lock's anti-starvation path depends on a wall clock inside the dependency (a waiter that waited > 500 us gets fair hand-off); the families starved-* force it by really waiting 650 us whenever a task parks on the mutex, the other families run in barging mode (an OS stall > 500 us can switch a run to fair mode, which changes the explored schedule but not the verdict)",
+            "histories are at most 16 operations",
+        ],
         families,
     }
 }
@@ -907,6 +1013,55 @@ fn c14(tier: &str) -> PropDef {
             make: Box::new(move |seed, idx| mk(seed, idx, false)),
         },
         Family {
+            name: "sim-memory-disk",
+            count: if quick { 400 } else { 20_000 },
+            make: Box::new(move |seed, idx| {
+                // writer histories biased to clears reaching the end of the data file, empty blocks
+                // right after them and reopens: where file-length bookkeeping of the backends differs
+                let mut r = Rng::stream(seed, "C14", idx, "sim-mem-disk");
+                let mut g = G::new(idx);
+                let mut steps = vec![];
+                let n = r.range(6, 22);
+                for _ in 0..n {
+                    match r.below(12) {
+                        0 | 1 => {
+                            let blk = g.blk(&mut r);
+                            g.len += 1;
+                            steps.push(Step::Append { n: 0, blk });
+                        }
+                        2 | 3 => {
+                            steps.push(Step::Append { n: 0, blk: g.small_blk(0) });
+                            g.len += 1;
+                        }
+                        4 => {
+                            let k = r.range(1, 4);
+                            let blks = (0..k).map(|_| g.blk(&mut r)).collect();
+                            g.len += k;
+                            steps.push(Step::Batch { n: 0, blks });
+                        }
+                        5 | 6 if g.len > 0 => {
+                            // clear a tail range
+                            let s = r.below(g.len);
+                            steps.push(Step::Clear { n: 0, start: s, end: g.len + r.below(3) });
+                        }
+                        7 | 8 if g.len > 0 => {
+                            let (s, e) = g.clear_range(&mut r);
+                            steps.push(Step::Clear { n: 0, start: s, end: e.min(g.len + 2) });
+                        }
+                        9 | 10 => steps.push(Step::Reopen { n: 0 }),
+                        _ => steps.push(Step::Get { n: 0, index: g.index(&mut r) }),
+                    }
+                }
+                let arms = vec![
+                    Arm { backend: Backend::Sim, cache: CacheMode::Off, nosparse: false },
+                    Arm { backend: Backend::Memory, cache: CacheMode::Off, nosparse: false },
+                    Arm { backend: Backend::DiskFs, cache: CacheMode::Off, nosparse: false },
+                ];
+                let spec = ConfigSpec { key_seed: seed ^ idx, replicas: 0, steps, arms };
+                Case { prop: String::new(), family: String::new(), run: 0, body: Body::Config(spec) }
+            }),
+        },
+        Family {
             name: "with-real-disk",
             count: if quick { 60 } else { 3_000 },
             make: Box::new(move |seed, idx| mk(seed, idx, true)),
@@ -914,7 +1069,7 @@ fn c14(tier: &str) -> PropDef {
     ];
     PropDef {
         level: "exploration",
-        rule: "one seeded trace (C01 writer histories or C03 honest replica histories, with reopen) is executed under: SimDisk x {cache off, default cache, tiny cache of ~3 nodes}, the real random-access-memory backend x {off, tiny}, and (family with-real-disk) the real random-access-disk backend on /dev/shm x {off, default, tiny} plus once more in a second binary built without the `sparse` feature. Oracle: the op-by-op observation log (every call result and every post-step full scan) is identical across arms and the final bytes of all four files of every node are identical (length and content, holes read as zeros). distinct = case hash; non-trivial = mutating step and reopen.",
+        rule: "one seeded trace (C01 writer histories or C03 honest replica histories, with reopen) is executed under: SimDisk x {cache off, default cache, tiny cache of ~3 nodes}, the real random-access-memory backend x {off, tiny}, and (family with-real-disk) the real random-access-disk backend on /dev/shm x {off, default, tiny} plus once more in a second binary built without the `sparse` feature. Oracle: the op-by-op observation log (every call result and every post-step full scan) is identical across arms and the bytes of all four files of every node are identical after EVERY step (length and content; up to trailing zero bytes when a real-disk arm is involved). Family sim-memory-disk biases writer histories to tail clears, empty blocks and reopens, where the backends' file-length bookkeeping differs. distinct = case hash; non-trivial = mutating step and reopen.",
         assumptions: vec![
             "moka's maintenance timing is not under simulator control; it only affects which nodes are cached, which is exactly what must not be observable; replay of a C14 failure is 'same trace, same configuration', not bit-exact cache state",
             "the disk arm runs real tokio file I/O on tmpfs",
